@@ -335,3 +335,60 @@ func (p *Program) constNameByValue(pkg *packages.Package, typ string, val string
 	}
 	return ""
 }
+
+// isLexerFunc: fd belongs to the lexer - it mentions the scanner type (receiver, parameter, local), or it is an
+// unexported helper that only lexer functions call. (Decided from the code, not from the file a function lives in.)
+func (p *Program) isLexerFunc(fd *ast.FuncDecl) bool {
+	if p.lexer == nil {
+		p.lexer = map[*ast.FuncDecl]bool{}
+		pkg := p.Parser
+		scannerT := p.Named(pkg, "scanner")
+		mentions := func(fd *ast.FuncDecl) bool {
+			found := false
+			ast.Inspect(fd, func(n ast.Node) bool {
+				if id, ok := n.(*ast.Ident); ok {
+					if tn, ok := p.Info.Uses[id].(*types.TypeName); ok && tn == scannerT.Obj() {
+						found = true
+					}
+				}
+				return !found
+			})
+			return found
+		}
+		for _, f := range AllFuncs(pkg) {
+			if mentions(f) {
+				p.lexer[f] = true
+			}
+		}
+		// helpers called only by lexer functions
+		for changed := true; changed; {
+			changed = false
+			for _, f := range AllFuncs(pkg) {
+				if p.lexer[f] {
+					continue
+				}
+				fn := FuncObj(pkg, f)
+				if fn == nil || fn.Exported() {
+					continue
+				}
+				callers, all := 0, true
+				for _, g := range AllFuncs(pkg) {
+					ast.Inspect(g.Body, func(n ast.Node) bool {
+						if call, ok := n.(*ast.CallExpr); ok && Callee(p.Info, call) == fn {
+							callers++
+							if !p.lexer[g] {
+								all = false
+							}
+						}
+						return true
+					})
+				}
+				if callers > 0 && all {
+					p.lexer[f] = true
+					changed = true
+				}
+			}
+		}
+	}
+	return p.lexer[fd]
+}
